@@ -405,7 +405,7 @@ theorem countCRLF_le (a : Str) : countCRLF a ≤ a.count '\r' := by
 theorem countCRLF_append (a y : Str) (h : a.getLast? ≠ some '\r') :
     countCRLF (a ++ y) = countCRLF a + countCRLF y := by
   fun_induction countCRLF a with
-  | case1 => simp [countCRLF]
+  | case1 => simp
   | case2 c =>
     have hc : c ≠ '\r' := by simpa using h
     cases y with
@@ -492,7 +492,7 @@ theorem parts_group : ∀ n (s : Str), s.length ≤ n → ∀ (level pos ln : Na
       obtain ⟨v, b, r⟩ := p
       obtain ⟨hs1, hv, hb⟩ := skipToBrace_some hsk
       subst hs1
-      simp only [hsk]
+      simp only
       have hr_len : r.length ≤ n := by simp only [List.length_append, List.length_cons] at hs; omega
       rcases hb with hb | hb
       · subst hb
@@ -582,7 +582,7 @@ theorem parts_top : ∀ n (s : Str), s.length ≤ n → ∀ (pos ln : Nat), dept
       obtain ⟨v, b, r⟩ := p
       obtain ⟨hs1, hv, hb⟩ := skipToBrace_some hsk
       subst hs1
-      simp only [hsk]
+      simp only
       have hr_len : r.length ≤ n := by simp only [List.length_append, List.length_cons] at hs; omega
       rcases hb with hb | hb
       · subst hb
@@ -642,7 +642,7 @@ theorem err_close : ∀ n (s : Str), s.length ≤ n → ∀ (pos ln : Nat) (body
       obtain ⟨v, b, r⟩ := p
       obtain ⟨hs1, hv, hb⟩ := skipToBrace_some hsk
       subst hs1
-      simp only [hsk]
+      simp only
       have hr_len : r.length ≤ n := by simp only [List.length_append, List.length_cons] at hs; omega
       rcases hb with hb | hb
       · subst hb
@@ -718,7 +718,7 @@ theorem err_eof : ∀ n (s : Str), s.length ≤ n → ∀ (level pos ln : Nat), 
       obtain ⟨v, b, r⟩ := p
       obtain ⟨hs1, hv, hb⟩ := skipToBrace_some hsk
       subst hs1
-      simp only [hsk]
+      simp only
       have hr_len : r.length ≤ n := by simp only [List.length_append, List.length_cons] at hs; omega
       rcases hb with hb | hb
       · subst hb
